@@ -25,7 +25,7 @@ CHECKS = {
     "C08": dict(level="exploration", tech="runtime monitoring: driver-chosen task outcomes as ground truth, task-level simulation vs tasks inside the monitored runner after every step, predicted verdict vs terminal ReadJob snapshot and /job/detail JSON",
                 text="Failure/allow_failure/non-exit-error assignments x both fail-fast settings x release orders x external cancels; verdict soundness (plain success only if all tasks succeeded or failed with allow_failure) is checked on every finished job.", ref="4 C08"),
     "C09": dict(level="fault_enumeration", tech="fault injection with strace: SIGKILL / ENOSPC / EIO / EMFILE injected at EVERY openat/write/close/rename system call of the saving thread of a victim process (counted in a dry run), random-instant SIGKILLs, inspection from a fresh process; in-process reader-vs-writer monitor",
-                text="Every system-call boundary of a multi-save run of the real JsonDataStore is a crash point and an I/O fault point; the directory is then loaded by a fresh process and must show one complete, allowed generation.", ref="4 C09",
+                text="Every system-call boundary of a multi-save run of the real JsonDataStore is a crash point and an I/O fault point; the directory is then loaded by a fresh process and must show one complete, allowed generation; a fresh saver then writes a shorter generation into the same directory, which must be read back exactly.", ref="4 C09",
                 note="Trusted base: strace's injection, kernel rename atomicity. Power loss is outside the statement (no fsync in the code)."),
     "C10": dict(level="fault_enumeration", tech="runtime monitoring over save points: recording wrapper around the real JsonDataStore copies every persisted snapshot of a conformance history; a fresh runner is started on each copy and compared field by field (decoded values) with the live runner; prepared store files for states that exist only between two runner steps",
                 text="Every persisted snapshot of every history (explicit saves at every position + persist loop) is a restart point; arbitrary JSON payloads incl. floats with 17 significant digits.", ref="4 C10"),
@@ -41,10 +41,10 @@ CHECKS = {
                 note="Trusted base: chi's route walk lists every registered route; the listener (bind address, TLS) is outside the handler."),
     "C15": dict(level="exploration", tech="runtime monitoring: API flags (schedulable/running) vs outcome of the next request and vs job list at every quiescent step",
                 text="The schedulable flag is read immediately before every schedule request of the history and compared with what the request then returns; running flag, presence, ordering and timestamps are checked on every snapshot.", ref="4 C15"),
-    "C16": dict(level="exploration", tech="runtime monitoring: the monitored runner records the task.Task actually handed to it (commands, env, variables); compared with a deep copy of the definition taken when the schedule request returned; reload operations inside conformance histories (also with the loop parked between tasks via H1)",
+    "C16": dict(level="exploration", tech="runtime monitoring: the monitored runner records the task.Task actually handed to it (commands, env, variables); compared with a deep copy of the definition taken when the schedule request returned; reload operations inside conformance histories (also with the loop parked between tasks via H1, and injected inside ScheduleAsync through the job-id generator); SIGUSR1 reload sequences on the real binary",
                 text="13 mutation operators applied at every point of a job's life; job list deep-equal across ReplaceDefinitions; per-job delay honoured; nothing stranded for pipelines that remain defined.", ref="4 C16"),
     "C17": dict(level="exploration", tech="runtime monitoring of LoadRecursively / Equals on generated inputs: round trip against the generator's own value, independent re-statement of the validity rules, single-constraint corruptions, reflection-driven single-field mutator for Equals",
-                text="Generated YAML trees over all fields, 10 corruption kinds, every field x every applicable edit operator; an unknown field kind makes the run inconclusive instead of being skipped.", ref="4 C17",
+                text="Generated YAML trees over all fields, 15 corruption kinds, every field x every applicable edit operator; an unknown field kind makes the run inconclusive instead of being skipped.", ref="4 C17",
                 note="Trusted base: yaml.v2 for emitting the input files; reflection enumerates the fields so future fields are included."),
     "C18": dict(level="exploration", tech="runtime monitoring with REAL processes: every task command dumps its complete environment and rendered arguments; read back through the real FileOutputStore and compared with the three-level expectation",
                 text="Names over every subset of the three levels (incl. prefix-related names), hostile values, concurrent jobs with per-job variables, missing-variable and reserved-variable cases.", ref="4 C18",
@@ -53,7 +53,7 @@ CHECKS = {
                 text="Sizes 0..8 MiB, binary and line-structured payloads, several commands per task, concurrent tasks and jobs, failing and canceled writers (prefix property), hostile task names.", ref="4 C19",
                 note="Trusted base: the generator is re-run in the harness to recompute the expected streams; stdout and stderr are compared separately."),
     "C20": dict(level="exploration", tech="runtime monitoring with REAL process trees: /proc scan for per-job environment markers at the instant the canceled job is first observed finished and after the kill timeout; heartbeat-clock bound",
-                text="16 tree shapes x 3 cancel instants x CancelJob / forced Shutdown x other jobs alongside; three shapes are known findings (processes that outlive the report by at most the kill timeout), everything surviving the kill timeout is a violation for every shape.", ref="4 C20",
+                text="23 tree shapes x 3 cancel instants x CancelJob / forced Shutdown x other jobs alongside; four shape signatures are known findings (processes that outlive the report by at most the kill timeout), everything surviving the kill timeout is a violation for every shape.", ref="4 C20",
                 note="Trusted base: /proc (environ, stat) of this container; processes that leave the process group are excluded by the statement."),
 }
 
